@@ -26,7 +26,7 @@ CLAIMS = {
              "fast paths by two induction lemmas that are themselves verified.",
         note="Binary.Skip is proved exactly equal to the grammar; the stream skipper and the generic skip decoder by the sandwich the property states (exact agreement at budget 63, acceptance only of what the "
              "grammar accepts at 64); BytesSkipDecoder and SkipDecoder are proved to refine the SkipDecoderIface contract and their Next returns exactly the value's bytes and consumes exactly its length. "
-             "ReaderSkipDecoder (io.Reader-backed) is not yet under contract. " + TRUST,
+             "ReaderSkipDecoder (io.Reader-backed) is proved against the io.Reader interface contract (any fragmentation; data delivered together with the error - D9 fixed); its pooled construction/Release (sync.Pool) is not under contract. " + TRUST,
         design="5 C02"),
     "C03": dict(
         text="Proof of absence of run-time panics (index, slice bounds, nil, division, type assertion, unsafe reads inside the allocation) and of the extent clause "
@@ -59,12 +59,12 @@ CLAIMS = {
              "for every cap > 0 and then never freed, parked or written (fakeIOReader.Read assigns nothing). Writer: Malloc/WriteBinary never write handed-out bytes nor free; regions are distinct index ranges of one allocation or distinct allocations; Flush frees only own live pool regions and never for a bytes writer (cache disabled), "
              "WriteBinary payloads are only read. mcache.Free requires a live pool region, so freeing caller memory or freeing twice cannot verify.",
         note="Sequential ownership only: exclusivity of a region obtained from the pool (sync.Pool) and the behaviour of mcache are trusted extern contracts; 'never read or written again after recycling' is proved through the invariants (every reference the object keeps is to a non-freed region) rather than by a check on every memory access. "
-             "ReaderSkipDecoder (skip-decoder results) is not yet under contract. " + TRUST,
+             "ReaderSkipDecoder: Next returns exactly the value's bytes in its own pooled buffer, growSlow copies before it recycles the old buffer and only ever frees its own live pool region; that a result stays valid only until the next Next is the documented contract and is not a proved lifetime property. " + TRUST,
         design="5 C09"),
     "C08": dict(
         text="Proof: the buffer skipper agrees with the grammar in both directions: success iff the grammar says a complete well-formed value is present, with the exact extent; "
              "truncation / unknown type, negative size and exhausted nesting budget (64) each yield an error; recursion is bounded (decreases maxdepth).",
-        note="Same functions as C02 (all but ReaderSkipDecoder). Nesting budget semantics are those of ValLenD: containers, structs and unknown-typed values consume budget, scalars and strings do not. " + TRUST,
+        note="Same functions as C02. Nesting budget semantics are those of ValLenD: containers, structs and unknown-typed values consume budget, scalars and strings do not. " + TRUST,
         design="5 C08"),
     "C12": dict(
         text="Proof: MarshalFastMsg / UnmarshalFastMsg against the FastCodec interface contract (any payload struct): empty method is an error; otherwise the envelope encoding followed by exactly the "
@@ -95,7 +95,7 @@ CLAIMS = {
              "every 2-byte/4-byte length prefixed string is prefix + bytes. Decode (see C10) reads HeaderLen == 14 + declared size and PayloadLen == total + 4 - HeaderLen, so the lengths agree.",
         note="Key/value map contents (and therefore the full parameter round trip, section order and the uint16 casts of counts / string lengths) are NOT proved: Go maps are abstracted to their length "
              "and range over a map is an arbitrary number of arbitrary entries. The upper bound size <= 65536 is proved for sizes below 2^32 (the code compares after a uint32 conversion). "
-             "EncodeToBytes / DecodeFromBytes (bytes-backed writer/reader) are not yet under contract. " + TRUST,
+             "EncodeToBytes is proved for the length of the returned slice only (the chunk contents are not tied to the flushed buffer, see C05 note); DecodeFromBytes is proved like Decode with the stream being exactly the given bytes, which it never writes. " + TRUST,
         design="5 C06"),
     "C10": dict(
         text="Proof over the bufiox.Reader interface contract (every fragmentation): Decode never panics, consumes 0, 14 or exactly 14 + declared size bytes, succeeds only if the magic matches, the declared "
@@ -103,7 +103,7 @@ CLAIMS = {
              "PayloadLen == total + 4 - HeaderLen, flags / sequence id / protocol id are the header's. readKVInfo and the section readers are proved exactly equal to the info-section grammar "
              "(internal/verifspec InfoOK): success iff every section is complete, for every byte string.",
         note="Decode applies readKVInfo to bytes equal to the stream's; that composition (grammar over the stream itself) is not restated as a Decode postcondition. Map contents are not modelled. "
-             "DecodeFromBytes is not yet under contract. " + TRUST,
+             "DecodeFromBytes: same clauses with the stream being exactly the given bytes. " + TRUST,
         design="5 C10"),
     "C11": dict(
         text="Proof for ApplicationException: BLength equals the bytes FastWrite/FastWriteNocopy produce, which are the documented field encodings; FastRead never panics, consumes exactly the struct extent "
